@@ -668,6 +668,18 @@ pub mod __verif_sync__ {
     pub fn until_interrupt<T>(f: impl std::future::Future<Output = T>) -> impl std::future::Future<Output = Option<T>> {
         super::sync::CtrlC.until_interrupt(f)
     }
+
+    /// the wait group of `howl`: one `add` per accepted session, `wait` is what `howl` awaits after the accept loop
+    pub struct VerifWaitGroup(super::sync::WaitGroup);
+    pub struct VerifSession(super::sync::WaitGroup);
+    impl VerifWaitGroup {
+        pub fn new() -> Self {Self(super::sync::WaitGroup::new())}
+        pub fn add(&self) -> VerifSession {VerifSession(self.0.add())}
+        pub fn wait(self) -> impl std::future::Future<Output = ()> {self.0}
+    }
+    impl VerifSession {
+        pub fn done(self) {self.0.done()}
+    }
 }
 
 #[cfg(feature="__rt_native__")]
